@@ -220,6 +220,14 @@ Theorem C05_suspend_resume_roundtrip : forall s, ph s = Running ->
 Proof. exact suspend_resume_roundtrip. Qed.
 Print Assumptions C05_suspend_resume_roundtrip.
 
+(* rejected (invalid_status) and blocked calls have no effect at the level of histories: dropping them
+   changes neither the final state nor the answers to the remaining calls *)
+Theorem C05_rejected_calls_have_no_effect : forall h s,
+  api_run (prune h s) s = api_run h s /\
+  api_resps (prune h s) s = filter effective (api_resps h s).
+Proof. exact prune_same. Qed.
+Print Assumptions C05_rejected_calls_have_no_effect.
+
 Example C05_incarnations_example :
   let h := [(FromOs, CStart 4 7%Z); (FromOs, CStart 2 1%Z); (FromOs, CFinalize); (FromOs, CStop);
             (FromOs, CStart 1 9%Z)] in
